@@ -743,6 +743,11 @@ def sizeof_type(t):
     if t is None:
         return None
     t = t.replace('const ', '').strip()
+    import re as _re
+    ma = _re.match(r'^(.+?)\s*\[(\d+)\]$', t)
+    if ma and '(' not in ma.group(1):
+        e = sizeof_type(ma.group(1))
+        return e * int(ma.group(2)) if e is not None else None
     if '*' in t:
         return 8
     i = int_type_info(t)
